@@ -21,7 +21,7 @@ NPAIRS = 6
 
 
 def plan(tier):
-    return {"n": 300 if tier == "quick" else 12000, "floor": 80 if tier == "quick" else 3000}
+    return {"n": 300 if tier == "quick" else 2400, "floor": 80 if tier == "quick" else 600}
 
 
 def rule(tier):
